@@ -63,7 +63,7 @@ def handle (j : Json) : Json :=
     let x := findXsdT xsdT t
     Json.mkObj [("py", match py with | some ty => Json.bool (runValidator refEngine pcT ty v) | none => Json.null),
                 ("xsd", match x with | some xt => Json.bool (xsdValid xt v) | none => Json.null),
-                ("plain", match v with | .str s => plainSpaces s | _ => true),
+                ("plain", match v with | .str s => plainFor pcT.ascii s | _ => true), ("ascii", pcT.ascii),
                 ("range", match x with | some xt => xt.base.rangeOK v | none => true),
                 ("nlfree", match x with | some xt => nlFree xt | none => true)]
   | "agree" => Json.mkObj [("agree", agree tableT NmlVerif.Gen.Xsd.types),
@@ -73,7 +73,8 @@ def handle (j : Json) : Json :=
       ("validators", allAgree pyT xsdT),
       ("badValidators", Json.arr ((pyT.filter (fun py => match findXsdT xsdT py.name with
           | some x => !(typeAgrees py x) | none => true)).map (fun py => Json.num py.name)).toArray),
-      ("patCheckFullLen", pcT.test == LenTest.fullLen)]
+      ("patCheckFullLen", pcT.test == LenTest.fullLen), ("patCheckAscii", pcT.ascii),
+      ("floatSpecials", NmlVerif.Gen.Validators.floatSpecials && NmlVerif.Gen.Validators.doubleSpecials)]
   | _ => Json.mkObj [("err", "op")]
 
 def main : IO Unit := loop handle
